@@ -314,6 +314,11 @@ Inductive stmt :=
 | OChunkEq (c : chunk) (p : part)         (* c == p ; p a str / chunk *)
 | OChunkFormat (c : chunk) (spec : list Z).
 
+(* what the harness reads off a comparison: a == b, b == a, a != b, b != a.  Neither class defines
+   __ne__, so Python answers != with the negation of __eq__ (of the reflected __eq__ when the first
+   one returns NotImplemented). *)
+Definition sx_eq_obs (b : bool) : sx := SL [sx_bool b; sx_bool b; sx_bool (negb b); sx_bool (negb b)].
+
 Definition sx_chunk (c : chunk) : sx := SL [sx_str (c_prefix c); sx_str (c_text c); sx_str (c_suffix c)].
 
 Fixpoint first_index (vs : list nat) (id : nat) (k : Z) : Z :=
@@ -377,7 +382,7 @@ Definition exec_stmt (st : state) (s : stmt) : state * sx :=
                | PV v => Nat.eqb (var_id vs a) (var_id vs v) || text_eq_text (obj a) (obj v)
                | _ => false                       (* NotImplemented both ways *)
                end in
-      (st, SL [sx_bool b; sx_bool b])
+      (st, sx_eq_obs b)
   | OChunkIndex c i => (st, sx_res sx_chunk (chunk_index c i))
   | OChunkSlice c lo hi => (st, sx_res sx_chunk (Ok (chunk_slice c lo hi)))
   | OChunkEq c p =>
@@ -386,7 +391,7 @@ Definition exec_stmt (st : state) (s : stmt) : state * sx :=
                | PC d => chunk_eqb c d
                | _ => false
                end in
-      (st, SL [sx_bool b; sx_bool b])
+      (st, sx_eq_obs b)
   | OChunkFormat c spec => (st, sx_res sx_str (text_format (append_chunk empty_text c) spec))
   end.
 
